@@ -18,6 +18,7 @@ import (
 	"sync/atomic"
 	"time"
 
+	"github.com/whatap/golib/config"
 	wio "github.com/whatap/golib/io"
 	"github.com/whatap/golib/lang/pack"
 	wnet "github.com/whatap/golib/net"
@@ -72,6 +73,9 @@ type packSpec struct {
 	pcode  int64
 	oid    int32
 	lic    string // "" = client default
+	via    int    // entry point: 0 Send, 1 SendFlush(flush=false), 2 SendFlush(flush=true)
+	style  int    // 1: the options carry more than the license (an earlier license that a later one overrides,
+	//                  an explicit empty license, options that do not concern the frame)
 	n      int    // text length
 	div    byte
 	hash   int32
@@ -132,11 +136,14 @@ func (ps *packSpec) fields(e core.Ev) core.Ev {
 	e["id"] = ps.id
 	e["pcode"] = core.W8(ps.pcode)
 	e["lic"] = lic
+	e["via"] = viaNames[ps.via%3]
 	e["ptype"] = 0x0700
 	e["plen"] = ps.plen
 	e["dg"] = core.Bytes(ps.dg)
 	return e
 }
+
+var viaNames = []string{"Send", "SendFlush/false", "SendFlush/true"}
 
 // ---------------------------------------------------------------- scenario
 
@@ -163,6 +170,10 @@ type scenario struct {
 	packs  map[*pack.TextPack]*packSpec
 	nondet bool
 	worker bool // direct mode with the client's background worker running (as GetOneWayTcpClient starts it)
+	curLic string  // the client's default license now (harness bookkeeping)
+	curCap int     // the capacity of the client's queue now (harness bookkeeping)
+	cfg    *cfgWin // not nil while the harness is changing the configuration (no send in progress)
+	ncfg   int     // configuration changes made (statistics)
 
 	mu       sync.Mutex
 	evs      []evRec
@@ -186,6 +197,9 @@ type scenario struct {
 	nextID  int      // last pack id handed out
 	cutDesc []string // the fault script, for the statistics
 }
+
+// defaultQueueSize is the documented default of the client's queue (netQueueSize).
+const defaultQueueSize = 1000
 
 // waitMax bounds every wait FOR a state (never an ordering); reaching it is a harness problem, reported as such.
 const waitMax = 90 * time.Second
@@ -251,6 +265,30 @@ func fromWorker() bool {
 func (sc *scenario) hook(name string, args ...interface{}) {
 	sc.mu.Lock()
 	if sc.finished {
+		sc.mu.Unlock()
+		return
+	}
+	if sc.cfg != nil && (name == "close" || name == "dial" || name == "connect") {
+		// ApplyConfig drops the connection and dials on the harness' own goroutine, between sends: what it did
+		// is collected into the Config event
+		switch name {
+		case "close":
+			sc.cfg.closed = true
+			atomic.StoreInt32(&sc.connected, 0)
+		case "dial":
+			sc.dials++
+		case "connect":
+			if args[1].(bool) {
+				sc.cfg.dial = "ok"
+				atomic.AddInt32(&sc.connOK, 1)
+				atomic.StoreInt32(&sc.connected, 1)
+				atomic.StoreInt64(&sc.bytesOK, 0)
+				sc.accum = 0
+			} else {
+				sc.cfg.dial = "fail"
+				sc.dialFails++
+			}
+		}
 		sc.mu.Unlock()
 		return
 	}
@@ -346,13 +384,29 @@ func (sc *scenario) send(ps *packSpec) {
 	sc.packs[p] = ps
 	sc.mu.Unlock()
 	var opts []wnet.TcpClientOption
-	if ps.lic != "" {
+	if ps.style == 1 {
+		if ps.lic != "" {
+			opts = append(opts, wnet.WithLicense("overridden-"+ps.lic), wnet.WithPriority(true), wnet.WithLicense(ps.lic))
+		} else {
+			opts = append(opts, wnet.WithSecureFlag(1), wnet.WithLicense(""))
+		}
+	} else if ps.lic != "" {
 		opts = append(opts, wnet.WithLicense(ps.lic))
+	}
+	// every public way of handing a pack to the client
+	call := func() error {
+		switch ps.via % 3 {
+		case 1:
+			return sc.cl.SendFlush(p, false, opts...)
+		case 2:
+			return sc.cl.SendFlush(p, true, opts...)
+		}
+		return sc.cl.Send(p, opts...)
 	}
 	if sc.mode == "direct" {
 		sc.point(ps.fields(core.Ev{"ev": "Call", "s": sname(ps.sender)}))
 		var err error
-		if msg := core.Guard(func() { err = sc.cl.Send(p, opts...) }); msg != "" {
+		if msg := core.Guard(func() { err = call() }); msg != "" {
 			sc.point(core.Ev{"ev": "Panic", "s": sname(ps.sender), "id": ps.id, "msg": msg})
 			return
 		}
@@ -361,7 +415,7 @@ func (sc *scenario) send(ps *packSpec) {
 	}
 	t0 := tick()
 	var err error
-	if msg := core.Guard(func() { err = sc.cl.Send(p, opts...) }); msg != "" {
+	if msg := core.Guard(func() { err = call() }); msg != "" {
 		sc.point(core.Ev{"ev": "Panic", "s": sname(ps.sender), "id": ps.id, "msg": msg})
 		return
 	}
@@ -445,6 +499,117 @@ func (sc *scenario) addWatch(key string) chan struct{} {
 	return w
 }
 
+// ---------------------------------------------------------------- configuration changes between sends
+
+type cfgWin struct {
+	closed bool
+	dial   string // "none" | "ok" | "fail"
+}
+
+// mapConf is a config.Config over a map (what a reloaded configuration file gives to ApplyConfig).
+type mapConf struct{ m map[string]string }
+
+func (c *mapConf) ApplyDefault()      {}
+func (c *mapConf) GetConfFile() string { return "" }
+func (c *mapConf) Destroy()           {}
+func (c *mapConf) GetKeys() []string {
+	var ks []string
+	for k := range c.m {
+		ks = append(ks, k)
+	}
+	sort.Strings(ks)
+	return ks
+}
+func (c *mapConf) GetValue(key string) string { return c.m[key] }
+func (c *mapConf) GetValueDef(key, def string) string {
+	if v, ok := c.m[key]; ok {
+		return v
+	}
+	return def
+}
+func (c *mapConf) GetBoolean(key string, def bool) bool { return def }
+func (c *mapConf) GetInt(key string, def int) int32 {
+	if v, ok := c.m[key]; ok {
+		n := 0
+		fmt.Sscanf(v, "%d", &n)
+		return int32(n)
+	}
+	return int32(def)
+}
+func (c *mapConf) GetIntSet(key, def, deli string) []int32 { return nil }
+func (c *mapConf) GetLong(key string, def int64) int64 {
+	if v, ok := c.m[key]; ok {
+		var n int64
+		fmt.Sscanf(v, "%d", &n)
+		return n
+	}
+	return def
+}
+func (c *mapConf) GetStringArray(key string, def string, deli string) []string { return nil }
+func (c *mapConf) GetStringHashSet(key, def, deli string) []int32              { return nil }
+func (c *mapConf) GetStringHashCodeSet(key, def, deli string) []int32          { return nil }
+func (c *mapConf) GetFloat(key string, def float32) float32                    { return def }
+func (c *mapConf) SetValues(v *map[string]string)                              {}
+func (c *mapConf) ToString() string                                            { return "" }
+func (c *mapConf) String() string                                              { return "" }
+
+var _ config.Config = (*mapConf)(nil)
+
+// reconf changes the client's configuration BETWEEN sends (the caller has joined its senders; in the queue modes the
+// drainer is idle): via "field" assigns the exported fields (License, Servers, the queue's capacity), via "apply"
+// hands a reloaded configuration to ApplyConfig.  ApplyConfig always re-resolves the server list from host and port
+// (to the standard port, whatever the configuration says); the host given here resolves to an empty list, so the
+// client is pointed away from the collector without dialling anybody else, until `here` is restored by assignment.
+// qreq: the capacity asked for (apply: <= 0 leaves it alone).
+func (sc *scenario) reconf(via, lic string, qreq int, here bool) {
+	w := &cfgWin{dial: "none"}
+	sc.mu.Lock()
+	sc.cfg = w
+	sc.mu.Unlock()
+	msg := core.Guard(func() {
+		switch via {
+		case "field":
+			// only what changes is assigned (in worker mode the drainer is idle and holds a connection: it reads
+			// License for the next pack only, and Servers not at all)
+			if sc.cl.License != lic {
+				sc.cl.License = lic
+			}
+			if sc.cl.Queue.GetCapacity() != qreq {
+				sc.cl.Queue.SetCapacity(qreq)
+			}
+			isHere := len(sc.cl.Servers) == 1 && sc.cl.Servers[0] == sc.col.addr()
+			if here && !isHere {
+				sc.cl.Servers = []string{sc.col.addr()}
+			} else if !here && isHere {
+				sc.cl.Servers = []string{}
+			}
+		case "apply":
+			sc.cl.ApplyConfig(&mapConf{map[string]string{"license": lic, "whatap.server.host": "/",
+				"whatap.server.port": fmt.Sprint(sc.col.port), "oneway_queue_size": fmt.Sprint(qreq)}})
+		}
+	})
+	sc.mu.Lock()
+	sc.cfg = nil
+	sc.mu.Unlock()
+	if msg != "" {
+		sc.point(core.Ev{"ev": "Panic", "s": "C", "msg": msg})
+		return
+	}
+	srv := "away"
+	if len(sc.cl.Servers) == 1 && sc.cl.Servers[0] == sc.col.addr() {
+		srv = "here"
+	}
+	sc.curLic = sc.cl.License
+	sc.curCap = sc.cl.Queue.GetCapacity()
+	sc.ncfg++
+	sc.cutDesc = append(sc.cutDesc, "cfg:"+via)
+	sc.point(core.Ev{"ev": "Config", "via": via, "lic": lic, "qreq": qreq, "srv": srv,
+		"obs_lic": sc.curLic, "obs_qcap": sc.curCap, "closed": w.closed, "dial": w.dial})
+}
+
+// serversBack points the client at the collector again (assignment to the exported field).
+func (sc *scenario) serversBack() { sc.reconf("field", sc.curLic, sc.curCap, true) }
+
 type scConf struct {
 	mode   string
 	qcap   int
@@ -469,12 +634,16 @@ func newScenario(gen string, cas int, r *rand.Rand, cf scConf) (*scenario, error
 	}
 	sfx := fmt.Sprintf("%04x", r.Intn(1<<16))
 	sc.deflic = "x41f2-lic-default-" + sfx
-	sc.lics = []string{sc.deflic, "x9a-lic-B-" + sfx, "lic-C-" + sfx + "-한"}
+	sc.lics = []string{sc.deflic, "x9a-lic-B-" + sfx, "lic-C-" + sfx + "-한", "x41f2-lic-D-" + sfx, "lic-E-" + sfx}
+	sc.curLic = sc.deflic
 	opts := []oneway.OneWayTcpClientOption{oneway.WithServers([]string{col.addr()}), oneway.WithLicense(sc.deflic),
 		oneway.WithPcode(int64(1000 + r.Intn(1000)))}
 	if cf.mode != "direct" {
 		opts = append(opts, oneway.WithUseQueue(), oneway.WithQueueSize(int32(cf.qcap)))
+	} else {
+		sc.qcap = defaultQueueSize // the queue exists in direct mode too (unused), with the client's default size
 	}
+	sc.curCap = sc.qcap
 	// the client must be registered before its worker can emit an event: build it unstarted first
 	if cf.arm != "" {
 		sc.gates[cf.arm] = &gate{parked: make(chan struct{}), release: make(chan struct{})}
